@@ -75,37 +75,42 @@ class MemProbe(e2.Probe):
 def bitfield_probes(fn, tier):
     P = []
     full = tier == "thorough"
-    for t in BF_TYPES:
+    for t in BF_TYPES + [BOOL]:
         widths = range(1, t.bits + 1) if full else sorted(set([1, 2, 3, 7, 8, 9, 15, 16, 17, 31, 32, 33, 63, 64]) & set(range(1, t.bits + 1)))
+        if t is BOOL:
+            widths = [1]          # a _Bool bit-field holds 0 or 1; the stored value is (v != 0), v an int
         for w in widths:
-            if full:
+            if full or t is BOOL:
                 offs = range(0, t.bits - w + 1)
             else:
                 offs = sorted(set([0, 1, 3, 5, 8, 13, 24, 31, t.bits - w]) & set(range(0, t.bits - w + 1)))
             for o in offs:
                 rest = t.bits - w - o
+                nt = "unsigned char" if t is BOOL else t.name       # neighbours of a _Bool bit-field: same storage unit size
+                rt_ = "int" if t is BOOL else t.name                 # a _Bool bit-field is read back as an int (promotion)
                 decl = "struct B { long lead; %s%s f : %d;%s long tail; };" % (
-                    ("%s a : %d; " % (t.name, o)) if o else "", t.name, w, (" %s c : %d;" % (t.name, rest)) if rest else "")
+                    ("%s a : %d; " % (nt, o)) if o else "", t.name, w, (" %s c : %d;" % (nt, rest)) if rest else "")
                 key = "%s/w%d/o%d" % (t.cid, w, o)
 
                 def mk(f):
                     return decl.replace("struct B", "struct B_%s" % f), "struct B_%s" % f
                 f = fn()
                 src, sname = mk(f)
-                body = ("%s\nlong %s(%s *p, %s v) {\n" % (src, f, sname, t.name) +
+                vt = "int" if t is BOOL else t.name
+                body = ("%s\nlong %s(%s *p, %s v) {\n" % (src, f, sname, vt) +
                         "  long a0 = %s, c0 = %s, l0 = p->lead, t0 = p->tail;\n" % ("p->a" if o else "0", "p->c" if rest else "0") +
-                        "  p->f = v;\n  %s r = p->f;\n" % t.name +
+                        "  p->f = v;\n  %s r = p->f;\n" % rt_ +
                         "  return (long)(r == r) | ((%s == a0) << 1) | ((%s == c0) << 2) | ((p->lead == l0) << 3) | ((p->tail == t0) << 4);\n}\n"
                         % ("p->a" if o else "0", "p->c" if rest else "0"))
                 P.append(BitfieldProbe("bf/neighbours/" + key, f, body, t, w, o, rest, "neighbours"))
                 f = fn()
                 src, sname = mk(f)
-                P.append(BitfieldProbe("bf/readback/" + key, f, "%s\n%s %s(%s *p, %s v) { p->f = v; return p->f; }\n" % (src, t.name, f, sname, t.name),
+                P.append(BitfieldProbe("bf/readback/" + key, f, "%s\n%s %s(%s *p, %s v) { p->f = v; return p->f; }\n" % (src, rt_, f, sname, vt),
                                        t, w, o, rest, "readback"))
                 if full or o in (0, 3) or w in (1, t.bits):
                     f = fn()
                     src, sname = mk(f)
-                    P.append(BitfieldProbe("bf/assignvalue/" + key, f, "%s\n%s %s(%s *p, %s v) { return p->f = v; }\n" % (src, t.name, f, sname, t.name),
+                    P.append(BitfieldProbe("bf/assignvalue/" + key, f, "%s\n%s %s(%s *p, %s v) { return p->f = v; }\n" % (src, rt_, f, sname, vt),
                                            t, w, o, rest, "assignvalue"))
     return P
 
@@ -130,6 +135,9 @@ class BitfieldProbe(MemProbe):
         if self.mode == "neighbours":
             return [e2.Goal("bits", H, rax == bv(31), {"v": v}, note="stored value not read back, or a neighbouring member / bit-field changed (result bit mask %s)" % "r|a|c|lead|tail")]
         want = bf_value(v, t, w)
+        if t is BOOL:
+            want = z3.If(z3.Extract(31, 0, reg) != 0, bv(1, 32), bv(0, 32))
+            return [e2.Goal("value", H, z3.Extract(31, 0, rax) == want, {"v": v, "__expected": want}, note="read-back (as int) of a _Bool bit-field")]
         got = z3.Extract(t.bits - 1, 0, rax) if t.bits < 64 else rax
         return [e2.Goal("value", H, got == want, {"v": v, "__expected": want},
                         note="%s of a %d-bit %s bit-field" % ("value of the assignment expression" if self.mode == "assignvalue" else "read-back", w, t.name))]
